@@ -56,7 +56,9 @@ def build_harness():
 # --------------------------------------------------------------------------------------------------
 SELFTEST = os.environ.get("VERIF_SELFTEST")
 SELFTEST_LOG = []
-_RECORDERS = {"c07", "c08", "c09", "c10", "c11", "c12", "c13", "c16", "c17", "c19", "c20", "ser-layout"}
+# operands (a recorded floating-point input may legitimately move by one unit within the specification's allowance) and bookkeeping
+_SELFTEST_SKIP = {"inputs", "seed", "id", "idx"}
+_RECORDERS = {"he-drive", "c07", "c08", "c09", "c10", "c11", "c12", "c13", "c16", "c17", "c19", "c20", "ser-layout"}
 
 
 def _int_leaves(o, path, out):
@@ -64,14 +66,13 @@ def _int_leaves(o, path, out):
         return
     if isinstance(o, int):
         out.append(path)
-    elif isinstance(o, str) and o.isdigit() and len(o) > 9:
-        out.append(path)
     elif isinstance(o, list):
         for i, x in enumerate(o):
             _int_leaves(x, path + [i], out)
     elif isinstance(o, dict):
         for k in sorted(o):
-            _int_leaves(o[k], path + [k], out)
+            if k not in _SELFTEST_SKIP:
+                _int_leaves(o[k], path + [k], out)
 
 
 def selftest_corrupt_record(text, args):
@@ -360,6 +361,9 @@ class Report:
         os.makedirs(evid, exist_ok=True)
         rd = os.path.join(replays, self.prop)
         os.makedirs(rd, exist_ok=True)
+        for f in os.listdir(rd):          # replay files of earlier runs of this tier are stale
+            if f.startswith(self.tier + "_"):
+                os.remove(os.path.join(rd, f))
         for fid, (f, n) in sorted(self.known_hits.items()):
             print("KNOWN-FINDING: property=%s %s (%d occurrence%s in this run)" % (self.prop, f["what"], n, "" if n == 1 else "s"))
         seen = set()
